@@ -959,4 +959,31 @@ theorem tie_skel_string2bytesZeroCopy : Gen.Skel.string2bytesZeroCopy = [
   "return *(*[]byte)(unsafe.Pointer(&bh))",
   "}"] := by rfl
 
+/-! the receiving end of the fall-back transport: the payload is COPIED out of the connection's read buffer (`transport_fb`) -/
+theorem tie_skel_c06_handleFallbackData : Gen.Skel.handleFallbackData = [
+  "func handleFallbackData(s *Session, h header, buf []byte) (int, bool, error) {",
+  "eventLen := int(h.Length())",
+  "payloadLen := eventLen - headerSize",
+  "const fallbackDataHeader = 8",
+  "if payloadLen < fallbackDataHeader {",
+  "return headerSize, false, fmt.Errorf(\"invalid fallback data event, length:%d\", eventLen)",
+  "}",
+  "if len(buf) < payloadLen {",
+  "return 0, true, nil",
+  "}",
+  "data := make([]byte, payloadLen)",
+  "copy(data, buf[:payloadLen])",
+  "seqID := binary.BigEndian.Uint32(data[:4])",
+  "status := binary.BigEndian.Uint32(data[4:8]) & 0xff",
+  "s.openCircuitBreaker()",
+  "fallbackSlice := newBufferSlice(nil, data[fallbackDataHeader:], 0, false)",
+  "fallbackSlice.writeIndex = len(data[fallbackDataHeader:])",
+  "atomic.AddUint64(&s.stats.fallbackReadCount, 1)",
+  "stream := s.getStream(seqID, streamState(status))",
+  "if stream == nil {",
+  "return eventLen, false, nil",
+  "}",
+  "return eventLen, false, s.handleStreamMessage(stream, bufferSliceWrapper{fallbackSlice: fallbackSlice}, streamState(status))",
+  "}"] := by rfl
+
 end Tie.C06
